@@ -671,6 +671,52 @@ func genKnownShapes(r *rand.Rand, emit func(core.Case)) {
 			emit(core.Case{Kind: "shape-decoy+honest+accomplice-witness", Ops: ops})
 		}
 	}
+	{ // benign primary replacement followed by a lie: the lagging primary is replaced by a witness
+		// that serves a forged chain; the other witness is silent, so nobody but the promoted
+		// provider itself could confirm its header
+		g := newGen(r)
+		c := g.honestChain(5, 1, 0, 0)
+		forked := g.fork(c, 1, 5)
+		var ov []string
+		for k := 0; k < 12; k++ {
+			ov = append(ov, fmt.Sprintf("%d:noresp", k))
+		}
+		for _, ord := range [][]int{{1, 2, 3}, {1, 3, 2}, {3, 2, 1}} {
+			g2 := *g
+			g2.ops = append([]string{}, g.ops...)
+			primary := g2.prov(1, blocksOf(c.blk, 1, 2), "")
+			liar := g2.prov(1, blocksOf(forked, 1, 5), "")
+			silent := g2.prov(1, blocksOf(c.blk, 1, 1), "ov="+strings.Join(ov[1:], ","))
+			o := []int{primary, liar, silent}
+			ordS := intsStr([]int{o[ord[0]-1], o[ord[1]-1], o[ord[2]-1]})
+			ops := g2.ops
+			ops = append(ops, fmt.Sprintf("new chain=1 period=1000000000 h=1 hash=%d seq=0 num=1 den=3 drift=2 prune=0 primary=%d wit=%d,%d order=%s",
+				c.blk[1], primary, liar, silent, ordS))
+			ops = append(ops, fmt.Sprintf("verify h=5 now=%d order=%s", c.t[5]+100, ordS))
+			ops = append(ops, fmt.Sprintf("verify h=4 now=%d order=%s", c.t[5]+200, ordS))
+			emit(core.Case{Kind: "shape-promoted-witness-lies", Ops: ops})
+		}
+	}
+	{ // restart with trust options naming ANOTHER hash at the latest stored height (and below, above)
+		// while the primary keeps serving the stored chain
+		g := newGen(r)
+		c := g.honestChain(6, 1, 0, 0)
+		forked := g.fork(c, 1, 5)
+		primary := g.prov(1, blocksOf(c.blk, 1, 6), "")
+		w := g.prov(1, blocksOf(c.blk, 1, 6), "")
+		for _, h := range []int{4, 3, 5} {
+			ops := append([]string{}, g.ops...)
+			mk := func(hh, hash int, extra string) string {
+				return fmt.Sprintf("new chain=1 period=1000000000 h=%d hash=%d seq=0 num=1 den=3 drift=2 prune=0 primary=%d wit=%d order=%d,%d%s",
+					hh, hash, primary, w, primary, w, extra)
+			}
+			ops = append(ops, mk(2, c.blk[2], ""))
+			ops = append(ops, fmt.Sprintf("verify h=4 now=%d order=%d,%d", c.t[6]+100, primary, w))
+			ops = append(ops, mk(h, forked[h], " keep=1 opts=1"))
+			ops = append(ops, fmt.Sprintf("verify h=6 now=%d order=%d,%d", c.t[6]+200, primary, w))
+			emit(core.Case{Kind: "shape-restart-with-other-root", Ops: ops})
+		}
+	}
 	{ // equivocation at a height whose total voting power differs from the last common block's:
 		// the evidence must carry the attack height's totals (the full node checks them there)
 		g := newGen(r)
